@@ -123,7 +123,7 @@ Definition RInv (s : rstate) : Prop := PInv [] s.
 
 (* frame: what a step leaves alone *)
 Definition same_but (s s1 : rstate) : Prop :=
-  r_isio s1 = r_isio s /\ r_prod s1 = r_prod s /\ map fst (r_inits s1) = map fst (r_inits s).
+  r_isio s1 = r_isio s /\ r_prod s1 = r_prod s /\ map fst (r_inits s1) = map fst (r_inits s) /\ r_const s1 = r_const s.
 
 Lemma r_pop_ok R s g v :
   PInv R s -> r_isinit s v = true -> r_vgraph s v = Some g ->
@@ -178,7 +178,7 @@ Qed.
 (* value.name = n on a value that is not an initializer *)
 Lemma rename_plain_ok R s v n :
   PInv R s -> r_isinit s v = false ->
-  PInv R (mkR (upd (r_vn s) v (Some n)) (r_inits s) (r_isinit s) (r_isio s) (r_vgraph s) (r_prod s)).
+  PInv R (mkR (upd (r_vn s) v (Some n)) (r_inits s) (r_isinit s) (r_isio s) (r_vgraph s) (r_prod s) (r_const s)).
 Proof.
   intros [PE PK PC PD] Hi. constructor; simpl; try assumption.
   intros g k u H. destruct (PE _ _ _ H) as [A [B [C [D [E F]]]]].
@@ -199,7 +199,7 @@ Proof.
   destruct (PD _ _ HR) as [Hi [Hp [Hvg Hg0]]].
   set (d := get_dict g (r_inits s)) in *.
   set (s1 := mkR (r_vn s) (set_dict g (d ++ [(k, v)]) (r_inits s)) (upd (r_isinit s) v true) (r_isio s)
-                 (upd (r_vgraph s) v (Some g)) (r_prod s)).
+                 (upd (r_vgraph s) v (Some g)) (r_prod s) (r_const s)).
   assert (Hrun : r_add g v s = (s1, Ok tt)).
   { unfold r_add. rewrite Hn. destruct k as [|c k']; [congruence|]. rewrite Hp. fold d. rewrite HL.
     destruct Hvg as [Hvg|Hvg]; rewrite Hvg; [reflexivity|]. rewrite N.eqb_refl. reflexivity. }
